@@ -279,6 +279,7 @@ theorem kinv_apply {N : Nat} {s : State} (hI : Inv s) (hc : Clean s) (hord : Ord
   | throw i x => simp [Ev.orderly] at ho
   | interrupt i x => simp [Ev.orderly] at ho
   | reinsert i ps => simp [Ev.orderly] at ho
+  | acquireFails k => simp [Ev.orderly] at ho
   | setEv ev =>
     refine kinv_same h (by rfl) (by rfl) ?_ ?_
     · intro j; simp only [State.apply, State.doSetEv]; split <;> rfl
